@@ -19,7 +19,7 @@ ASSUMPTIONS = [
     'SBML sub-domain: generated linear PKPD models (dosed, fixed parameters) through the reference integrator vf/simshim.py; '
     'oracle = complex step through the closed-form solution (matrix exponential)']
 REQUIRED = ['indiv', 'hier', 'sbml', 'dosed', 'sbml_fixed', 'posterior', 'nonfinite', 'cov', 'red', 'noncentered', 'kind:pooled',
-            'kind:hetero', 'unmeasured_output_first', 'negative_outputs']
+            'kind:hetero', 'unmeasured_output_first', 'negative_outputs', 'sbml_all_mech_fixed']
 
 
 @st.composite
@@ -54,7 +54,9 @@ def _spec(draw):
         params = theta + draw(gen.vec(gen.logu(0.1, 2.0), sum(llbuild.ll_n_sigma(ll))))
         fixed = None
         if len(names) >= 2 and gen.chance(draw, 0.3):
-            idx = draw(gen.subset(len(names), min_size=1, max_size=len(names) - 1))
+            # (also every mechanistic parameter fixed: only the noise parameters stay free)
+            idx = list(range(len(names))) if gen.chance(draw, 0.2) else \
+                draw(gen.subset(len(names), min_size=1, max_size=len(names) - 1))
             fixed = {str(i): theta[i] for i in idx}
         prior = llbuild.draw_prior(draw, len(params) - (len(fixed) if fixed else 0),
                                    [v for i, v in enumerate(params) if not (fixed and str(i) in fixed)]) \
@@ -129,6 +131,8 @@ def classify(spec):
             labs.append('dosed')
         if spec['fixed']:
             labs.append('sbml_fixed')
+            if len(spec['fixed']) == spec['ll']['n_par']:
+                labs.append('sbml_all_mech_fixed')
     else:
         if spec['ll']['n_out'] > 1:
             labs.append('multi_output')
